@@ -141,8 +141,9 @@ def C16():
                   "source on exactly the selected pages",
         trusted_base=[SOLVERS, ENGINE, "bytes.hex / str slicing / struct.unpack big-endian (assumed, DESIGN 1.7)",
                       "concatenating consecutive windows covering [0, L) yields the string (fact about strings)"],
-        assumptions=["rtf_read_figure (one (bytes, format) per path, in order) is an assumed contract of FigureOnly; the appended parts of "
-                     "_encode_figure_only are observed through a handler on parts.append (the function only appends)"],
+        assumptions=["FigureOnly uses rtf_read_figure through its contract (unit ReadFigure: one (bytes, format) per path, in order); open(path,'rb').read() "
+                     "and Path.exists are assumed file-system contracts; the appended parts of _encode_figure_only are observed through a handler on "
+                     "parts.append (the function only appends)"],
         replayers={"services/figure_service.py::RTFFigureService": R.replay_figures},
         design_ref="4/C16, A19",
     )
